@@ -67,7 +67,25 @@ def run(ctx):
             return lambda *a, **k: None
         return NotImplemented
     models = Models(hooks={'external': external})
-    I = Interp(ctx.repo, models)
+    def distinct_markers(interp, node, fr, value):
+        """the marker symbols of the scenarios (first / second, kw1 / kw2, ..) stand for *different* arguments: an equality
+        test between two of them is false; anything else undetermined stays undecided"""
+        from ..ndarr import Unk
+        if not isinstance(value, Unk):
+            return None
+        cmps = value.comparisons()
+        if cmps and all(c[1] == '==' and isinstance(c[2], Poly) and isinstance(c[3], Poly) and len(c[2].atoms()) == 1
+                        and len(c[3].atoms()) == 1 and c[2].atoms() != c[3].atoms() for c in cmps):
+            try:
+                from ..dv import logical_shape
+                shape = logical_shape(value, lambda e: (id(e), True))
+            except Exception:
+                shape = ('other', 0)
+            # a conjunction / single comparison of such tests is false when each of them is
+            if len(cmps) == 1 or shape[0] in ('all', 'any'):
+                return False
+        return None
+    I = Interp(ctx.repo, models, branch_oracle=distinct_markers)
     models.bind(I)
     J = I.get_global('nd_scipy', 'Jacobian')
     G = I.get_global('nd_scipy', 'Gradient')
@@ -181,6 +199,25 @@ def run(ctx):
                 problems.append('f0 of the second call is a value computed during the first call')
         rep.check(not problems, 'R-REUSE', 'nd_scipy.Jacobian.__call__', where, {'problems': problems[:2], 'keywords': sorted(kws)},
                   'only the arguments of the current call are forwarded', 'Jacobian(%s) called twice' % method, key='reuse')
+        # ... and a third call at the same x with the same positional but another keyword argument
+        n_before = len(evals)
+        obj(x, Poly.sym('second'), p=Poly.sym('kw3'))
+        kws = dict(captured[-1]['kw'])
+        problems = []
+        if tuple(kws.get('args', ())) != (Poly.sym('second'),) or kws.get('kwargs') != {'p': Poly.sym('kw3')}:
+            problems.append('third call forwards args=%r kwargs=%r' % (kws.get('args'), kws.get('kwargs')))
+        f0 = kws.get('f0')
+        if f0 is not None:
+            vals = f0.items() if isinstance(f0, Arr) else (list(f0) if isinstance(f0, (list, tuple)) else [f0])
+            atoms = set()
+            for v in vals:
+                if isinstance(v, Poly):
+                    atoms |= set(v.atoms())
+            if any(('fval%d' % (k + 1)) in atoms for k in range(n_before)):
+                problems.append('f0 of the third call is a value computed for other keyword arguments')
+        rep.check(not problems, 'R-REUSE', 'nd_scipy.Jacobian.__call__', where, {'problems': problems[:2], 'keywords': sorted(kws)},
+                  'only the arguments of the current call are forwarded',
+                  'Jacobian(%s) called again with another keyword argument only' % method, key='reuse')
     # Gradient
     for xshape in ((3,), (1,), (2, 2), ()):
         del captured[:]
